@@ -6,13 +6,17 @@
  *   token822.c token822_addrlist (with the real gotaddr), qmail-inject.c rwtocc ->
  *   rwgeneric (rwroute, rwextradot, rwextraat, rwnoat, rwplus, rwnodot) -> rwappend ->
  *   token822_unquote
- * on it.  Text -> tokens (token822_parse) is the subject of header_roundtrip.c and
- * reparse.c; this query starts at the token list a correct parse delivers.
+ * on it.  Text -> tokens (token822_parse) is the subject of header_roundtrip.c; this query starts at the token list a correct parse delivers.
  * qmail-header(5): lone box gets the default host; host without dots gets the default
  * domain; host ending in + gets the plus domain; source routes are stripped; "djb fred ->
  * djb, fred"; address groups; comments.  Defaults here: defaulthost dh, defaultdomain dd,
  * plusdomain pd (one label each).
- * With STAB=1 the rewritten token list is also unparsed (token822_unparse) ... see reparse.c
+ * STAB=1 adds C17(3): the rewritten token list, written out by the real token822_unparse,
+ * is read by an RFC 822 reference reader and must give back the same tokens - so every
+ * RFC 822 reader finds the same addresses in the rewritten header.  (The second reading
+ * cannot go through the real token822_parse: on text with symbolic bytes it does not close
+ * beyond about 6 bytes, measured; its agreement with RFC 822 on quoted addresses is
+ * header_roundtrip.c.)
  */
 #include <stddef.h>
 #include "verif.h"
@@ -102,12 +106,90 @@ static int matches(stralloc *got, const char *pat)
   return 0;
 }
 
+#ifndef STAB
+#define STAB 0
+#endif
+
+#if STAB
+/* ---- C17(3): RFC 822 reference reader (section 3.1-3.3: lexical tokens), one pass, one
+ * loop.  It reads the text that token822_unparse() produced for the rewritten field and
+ * compares, token by token, with the token list that was written out: types, contents
+ * (after removing quotes and quoted-pairs), nothing missing, nothing extra.  Linear white
+ * space (space, tab, and the LF+space folds) only separates tokens. */
+#define TEXTMAX 56
+enum { S_NONE, S_ATOM, S_QUOTE, S_QUOTE_ESC, S_CMT, S_CMT_ESC, S_LIT, S_LIT_ESC };
+
+static void reference_read(stralloc *text, token822_alloc *want_t)
+{
+  unsigned int i, idx = 0, k = 0;
+  int st = S_NONE;
+  for (i = 0; i < TEXTMAX + 1; ++i) {
+    unsigned char c;
+    int end = i >= text->len;
+    struct token822 *e;
+    c = end ? '\n' : (unsigned char) text->s[i];
+    e = &want_t->t[idx < want_t->len ? idx : 0];
+    if (st == S_ATOM && !atomchar(c)) {                 /* atom ends before c */
+      CHECK(idx < want_t->len && e->type == TOKEN822_ATOM && (unsigned int) e->slen == k, "C17(3): atom read back as written");
+      ++idx; k = 0; st = S_NONE;
+      e = &want_t->t[idx < want_t->len ? idx : 0];
+    }
+    if (end) break;
+    switch (st) {
+      case S_NONE:
+        if (c == ' ' || c == '\t' || c == '\n' || c == '\r') {
+          if (c == '\n') CHECK(i + 1 >= text->len || text->s[i + 1] == ' ' || text->s[i + 1] == '\t', "C17(3): a line break inside the field is followed by white space (folding)");
+          break;
+        }
+        CHECK(idx < want_t->len, "C17(3): the text holds no token that was not written");
+        if (c == '"') { CHECK(e->type == TOKEN822_QUOTE, "C17(3): quoted-string where one was written"); st = S_QUOTE; k = 0; break; }
+        if (c == '(') { CHECK(e->type == TOKEN822_COMMENT, "C17(3): comment where one was written"); st = S_CMT; k = 0; break; }
+        if (c == '[') { CHECK(e->type == TOKEN822_LITERAL, "C17(3): domain-literal where one was written"); st = S_LIT; k = 0; break; }
+        if (atomchar(c)) {
+          CHECK(e->type == TOKEN822_ATOM && e->slen >= 1 && (unsigned char) e->s[0] == c, "C17(3): atom where one was written");
+          st = S_ATOM; k = 1; break;
+        }
+        {
+          int t = c == '@' ? TOKEN822_AT : c == '.' ? TOKEN822_DOT : c == '<' ? TOKEN822_LEFT : c == '>' ? TOKEN822_RIGHT
+                : c == ',' ? TOKEN822_COMMA : c == ';' ? TOKEN822_SEMI : c == ':' ? TOKEN822_COLON : 0;
+          CHECK(t != 0, "C17(3): no stray special, control or 8-bit character outside quotes");
+          CHECK(e->type == t, "C17(3): special read back as written");
+          ++idx;
+        }
+        break;
+      case S_ATOM:
+        CHECK(k < (unsigned int) e->slen && (unsigned char) e->s[k] == c, "C17(3): atom read back as written (content)");
+        ++k; break;
+      case S_QUOTE: case S_CMT: case S_LIT:
+        if (c == '\\') { st = st == S_QUOTE ? S_QUOTE_ESC : st == S_CMT ? S_CMT_ESC : S_LIT_ESC; break; }
+        if ((st == S_QUOTE && c == '"') || (st == S_CMT && c == ')') || (st == S_LIT && c == ']')) {
+          CHECK((unsigned int) e->slen == k, "C17(3): quoted-string/comment/literal read back with its full content");
+          ++idx; k = 0; st = S_NONE; break;
+        }
+        CHECK(c != '\r', "C17(3): no bare CR inside quotes, comments or literals");
+        if (st == S_CMT) CHECK(c != '(', "C17(3): a parenthesis inside a comment is quoted (one-level comments were written)");
+        if (st == S_LIT) CHECK(c != '[', "C17(3): a bracket inside a domain-literal is quoted");
+        CHECK(k < (unsigned int) e->slen && (unsigned char) e->s[k] == c, "C17(3): quoted content read back as written");
+        ++k; break;
+      default:  /* after a backslash: quoted-pair */
+        CHECK(k < (unsigned int) e->slen && (unsigned char) e->s[k] == c, "C17(3): quoted-pair read back as the character written");
+        ++k; st = st == S_QUOTE_ESC ? S_QUOTE : st == S_CMT_ESC ? S_CMT : S_LIT; break;
+    }
+  }
+  CHECK(st == S_NONE, "C17(3): the text does not end inside a quoted-string, comment or literal");
+  CHECK(idx == want_t->len, "C17(3): every token written is read back");
+}
+#endif
+
 void vmain(void)
 {
   unsigned int i;
   int r;
   sym_inputs();
   for (i = 0; i < 10; ++i) { ASSUME(atomchar(sy[i]) && sy[i] != '+'); cs[i] = (char) sy[i]; }
+  /* the last label of every host is a constant letter: rwplus() looks at its last byte,
+   * and with a symbolic byte there the "ends in +" rewriting is encoded on every form */
+  cs[2] = 'c'; cs[5] = 'f';
   ASSUME(qc != 0);
   cq[0] = (char) qc; cplus[0] = cs[1]; cplus[1] = '+';
 
@@ -126,8 +208,8 @@ void vmain(void)
   ABC; want[0] = "a@b.c"; nwant = 1;
 #elif FORM == 2          /* a                       lone box: default host, then default domain */
   A(0); want[0] = "a@DH.DD"; nwant = 1;
-#elif FORM == 3          /* a@b                     host without dots: default domain */
-  A(0); AT; A(1); want[0] = "a@b.DD"; nwant = 1;
+#elif FORM == 3          /* a@c                     host without dots: default domain */
+  A(0); AT; A(2); want[0] = "a@c.DD"; nwant = 1;
 #elif FORM == 4          /* a@b+                    plus domain */
   A(0); AT; add(TOKEN822_ATOM, cplus, 2); want[0] = "a@b.PD"; nwant = 1;
 #elif FORM == 5          /* j i <a@b.c>             phrase and angle brackets */
@@ -146,8 +228,8 @@ void vmain(void)
   ABC; DEF; want[0] = "a@b.c"; want[1] = "d@e.f"; nwant = 2;
 #elif FORM == 12         /* a@b.c, d@e.f */
   ABC; COMMA; DEF; want[0] = "a@b.c"; want[1] = "d@e.f"; nwant = 2;
-#elif FORM == 13         /* a.b@c.d                 dotted local part */
-  A(0); DOT; A(1); AT; A(2); DOT; A(3); want[0] = "a.b@c.d"; nwant = 1;
+#elif FORM == 13         /* a.b@d.c                 dotted local part */
+  A(0); DOT; A(1); AT; A(3); DOT; A(2); want[0] = "a.b@d.c"; nwant = 1;
 #elif FORM == 14         /* j <a@b.c>, d            mixed forms */
   A(9); LT; ABC; GT; COMMA; A(3); want[0] = "a@b.c"; want[1] = "d@DH.DD"; nwant = 2;
 #elif FORM == 15         /* a (g) @ b.c             comment inside the address */
@@ -177,5 +259,18 @@ void vmain(void)
             || (matches(&hrlist.sa[0], want[1]) && matches(&hrlist.sa[1], want[0])),
             "C17: the two mailboxes are the listed ones (in either order) after rewriting");
   }
+#if STAB
+  /* C17(3): the rewritten field is written out by token822_unparse (as doheaderfield
+   * does) and read by the RFC 822 reference reader */
+  {
+    static char b_text[TEXTMAX];
+    static stralloc text = { b_text, 0, TEXTMAX };
+    CHECK(token822_unparse(&text, &hfrewrite, LINELEN) == 1, "unparse succeeds");
+    CHECK(text.len >= 1 && text.len <= TEXTMAX && text.s[text.len - 1] == '\n', "C17(3): the rewritten field ends with its newline");
+    ASSUME(text.len <= TEXTMAX);
+    reference_read(&text, &hfrewrite);
+    WITNESS("reread");
+  }
+#endif
   WITNESS("form_done");
 }
